@@ -29,6 +29,7 @@ import (
 	"os"
 	"os/exec"
 	"runtime"
+	"runtime/debug"
 	"strconv"
 	"strings"
 	"sync"
@@ -109,6 +110,93 @@ func decode(enc string, p []byte) ([]byte, error) {
 	return nil, fmt.Errorf("unknown coding %q", enc)
 }
 
+// verifier is a reusable independent decoder for the hot loops (groups, saturation): the
+// same standard-library / direct readers as decode, but reset instead of re-allocated so that
+// the monitor itself does not become the memory load of the run.
+type verifier struct {
+	src bytes.Reader
+	gz  *gzip.Reader
+	zl  io.ReadCloser
+	br  *brotli.Reader
+	out []byte
+}
+
+var verifierPool = sync.Pool{New: func() any { return &verifier{} }}
+
+func (v *verifier) readAll(rd io.Reader) ([]byte, error) {
+	out := v.out[:0]
+	for {
+		if len(out) == cap(out) {
+			out = append(out, 0)[:len(out)]
+		}
+		n, err := rd.Read(out[len(out):cap(out)])
+		out = out[:len(out)+n]
+		if err == io.EOF {
+			v.out = out
+			return out, nil
+		}
+		if err != nil {
+			v.out = out
+			return out, err
+		}
+	}
+}
+
+// decodePooled is decode() with recycled state. The returned slice is valid until the verifier is reused.
+func (v *verifier) decodePooled(enc string, p []byte) ([]byte, error) {
+	if len(p) == 0 {
+		return nil, fmt.Errorf("empty %s stream", enc)
+	}
+	v.src.Reset(p)
+	switch enc {
+	case "gzip":
+		var err error
+		if v.gz == nil {
+			v.gz, err = gzip.NewReader(&v.src)
+		} else {
+			err = v.gz.Reset(&v.src)
+		}
+		if err != nil {
+			return nil, err
+		}
+		v.gz.Multistream(false)
+		out, err := v.readAll(v.gz)
+		if err == nil && v.src.Len() != 0 {
+			err = fmt.Errorf("%d trailing bytes after the gzip member", v.src.Len())
+		}
+		return out, err
+	case "deflate":
+		var err error
+		if v.zl == nil {
+			v.zl, err = zlib.NewReader(&v.src)
+		} else {
+			err = v.zl.(zlib.Resetter).Reset(&v.src, nil)
+		}
+		if err != nil {
+			return nil, err
+		}
+		out, err := v.readAll(v.zl)
+		if err == nil && v.src.Len() != 0 {
+			err = fmt.Errorf("%d trailing bytes after the zlib stream", v.src.Len())
+		}
+		return out, err
+	case "br":
+		if v.br == nil {
+			v.br = brotli.NewReader(&v.src)
+		} else if err := v.br.Reset(&v.src); err != nil {
+			return nil, err
+		}
+		return v.readAll(v.br)
+	case "zstd":
+		out, err := zstdDec.DecodeAll(p, v.out[:0])
+		if err == nil {
+			v.out = out
+		}
+		return out, err
+	}
+	return nil, fmt.Errorf("unknown coding %q", enc)
+}
+
 // fasthttp's own counterpart of each codec.
 func unFast(enc string, p []byte) ([]byte, error) {
 	switch enc {
@@ -136,7 +224,7 @@ func genSize(rnd *rand.Rand, big int) int {
 		return 150 + rnd.Intn(120) // around minCompressLen
 	case k < 90:
 		return rnd.Intn(20_000)
-	case k < 97:
+	case k < 99:
 		return rnd.Intn(300_000)
 	default:
 		return 1<<20 + rnd.Intn(big)
@@ -392,11 +480,15 @@ func (sp *respSpec) serve(ctx *fasthttp.RequestCtx) {
 	}
 }
 
+var stdGzipPool = sync.Pool{New: func() any { zw, _ := gzip.NewWriterLevel(io.Discard, gzip.BestSpeed); return zw }}
+
 func stdGzip(p []byte) []byte {
 	var b bytes.Buffer
-	zw := gzip.NewWriter(&b)
+	zw := stdGzipPool.Get().(*gzip.Writer)
+	zw.Reset(&b)
 	zw.Write(p) //nolint:errcheck
 	zw.Close()
+	stdGzipPool.Put(zw)
 	return b.Bytes()
 }
 
@@ -421,12 +513,10 @@ func genSpec(rnd *rand.Rand, big int) *respSpec {
 	for i := 0; i < nc; i++ {
 		sp.chunking = append(sp.chunking, 1+rnd.Intn(1+rnd.Intn(70_000)))
 	}
-	if len(sp.body) > 100_000 {
-		// keep the number of flushes sane for large bodies
-		for i := range sp.chunking {
-			if sp.chunking[i] < 500 {
-				sp.chunking[i] += 500
-			}
+	// at most a few hundred writes/flushes per body (each one is a round trip through the stackless queue)
+	for i := range sp.chunking {
+		if min := len(sp.body) / 150; sp.chunking[i] < min {
+			sp.chunking[i] += min
 		}
 	}
 	return sp
@@ -462,7 +552,7 @@ func sizeClass(n int) string {
 }
 
 func runHandlerCases(r *mon.Run, zstd0Safe bool) {
-	n := r.N(6000, 400_000)
+	n := r.N(1200, 150_000)
 	big := r.N(2<<20, 3<<20)
 	mon.Parallel(n, 0, func(i int) {
 		ci := baseHandler + i
@@ -597,6 +687,9 @@ func runHandlerCases(r *mon.Run, zstd0Safe bool) {
 				dec, err := decode(enc, got)
 				if err != nil || !bytes.Equal(dec, sp.body) {
 					key := "decoded-mismatch-" + enc
+					if enc == "zstd" && streamed {
+						key = "zstd-stackless-writer-lost-block"
+					}
 					if len(got) == 0 {
 						key = "compressed-body-empty"
 					} else if err == nil {
@@ -734,7 +827,9 @@ func judge(codec string, prefix, src, out []byte, werr error) (key, what string)
 	if len(z) == 0 {
 		return "empty-output", fmt.Sprintf("%d input bytes produced 0 output bytes", len(src))
 	}
-	d, err := decode(codec, z)
+	v := verifierPool.Get().(*verifier)
+	defer verifierPool.Put(v)
+	d, err := v.decodePooled(codec, z)
 	if err != nil || !bytes.Equal(d, src) {
 		return "roundtrip-mismatch-" + codec, fmt.Sprintf("independent decoder: %d compressed bytes -> %d bytes, err=%v; input had %d bytes", len(z), len(d), err, len(src))
 	}
@@ -752,7 +847,7 @@ func pickLevel(rnd *rand.Rand, codec string) int {
 }
 
 func runRoundTrips(r *mon.Run, zstd0Safe bool) {
-	n := r.N(6000, 400_000)
+	n := r.N(1000, 150_000)
 	big := r.N(2<<20, 4<<20)
 	mon.Parallel(n, 0, func(i int) {
 		ci := baseRoundTrip + i
@@ -764,8 +859,8 @@ func runRoundTrips(r *mon.Run, zstd0Safe bool) {
 		api := rnd.Intn(nAPIs)
 		level := pickLevel(rnd, codec)
 		size := genSize(rnd, big)
-		if codec == "br" && level >= 10 && size > 200_000 {
-			size = rnd.Intn(200_000) // brotli 10/11 is very slow on MiB inputs; the budget, not the property, limits this
+		if codec == "br" && level >= 6 && size > 200_000 && rnd.Intn(20) != 0 {
+			size = rnd.Intn(200_000) // brotli 6+ is very slow on MiB inputs; the budget, not the property, limits this
 		}
 		src, kind := genBody(rnd, size)
 		prefix := make([]byte, rnd.Intn(3)*rnd.Intn(9))
@@ -789,6 +884,11 @@ func runRoundTrips(r *mon.Run, zstd0Safe bool) {
 		r.Case(fmt.Sprintf("rt/%s/%s/lvl=%s/size=%s/%s", codec, apiNames[api], levelClass(codec, level), sizeClass(len(src)), kind), len(src) > 0)
 		r.Event("roundtrips_checked", 1)
 		key, what := judge(codec, prefix, src, out, werr)
+		if key == "roundtrip-mismatch-zstd" && api == apiWritePlain {
+			// narrow class: zstd through stackless.Writer (the encoder writes blocks from its own
+			// goroutine while stackless.writer.do hands the buffer on)
+			key = "zstd-stackless-writer-lost-block"
+		}
 		if key == "" {
 			// second decoder: fasthttp's own counterpart must agree
 			d, err := unFast(codec, out[len(prefix):])
@@ -810,8 +910,8 @@ func runRoundTrips(r *mon.Run, zstd0Safe bool) {
 
 // runGroups: the same call from g goroutines released together, g below the queue capacity.
 func runGroups(r *mon.Run) {
-	sizes := []int{1, 2, 16, 128, 1024, 8192}
-	rounds := r.N(2, 12)
+	sizes := []int{1, 2, 16, 128, 1024, 2048}
+	rounds := r.N(1, 8)
 	idx := 0
 	for round := 0; round < rounds; round++ {
 		for _, g := range sizes {
@@ -823,6 +923,11 @@ func runGroups(r *mon.Run) {
 				}
 				rnd := r.Rand("group", ci)
 				api := []int{apiAppendLevel, apiWriteBytesBuffer, apiWritePlain}[rnd.Intn(3)]
+				if api == apiWritePlain && g > 256 {
+					// every stackless.Writer owns a real encoder for its lifetime (MiBs each for
+					// zstd/brotli): thousands at once is a memory load of its own, not this property
+					api = apiAppendLevel
+				}
 				level := map[string]int{"gzip": 6, "deflate": 1, "br": 4, "zstd": 2}[codec]
 				src, kind := genBody(rnd, 2000+rnd.Intn(30_000))
 				bad := launch(g, func(int) (string, string) {
@@ -920,24 +1025,22 @@ func runSaturation(r *mon.Run) {
 				satPlan{"gzip", apiAppendLevel, fasthttp.CompressBestCompression, load},
 				satPlan{"deflate", apiAppendLevel, fasthttp.CompressBestCompression, load},
 				satPlan{"br", apiAppendLevel, 5, load}, // brotli 11 would need minutes for this many 100 KiB inputs
-				satPlan{"zstd", apiAppendLevel, fasthttp.CompressZstdBestCompression, load},
+				satPlan{"zstd", apiAppendLevel, fasthttp.CompressZstdSpeedBetter, load}, // "best" allocates tens of MiB per encoder
 				satPlan{"gzip", apiWritePlain, fasthttp.CompressBestCompression, load})
 		}
 	}
 	rnd := r.Rand("saturation", 0)
-	// ~100 KiB, compressible but not trivial: words drawn from a small dictionary
+	// ~100 KiB: a random 1 KiB block repeated with 4 mutated bytes per repetition. Best-compression
+	// deflate needs ~1 ms for it and the output is ~3 KiB, so the run is dominated by queueing, not by
+	// the monitor's memory.
 	var sb bytes.Buffer
-	words := make([][]byte, 300)
-	for i := range words {
-		w := make([]byte, 3+rnd.Intn(9))
-		for j := range w {
-			w[j] = byte('a' + rnd.Intn(26))
-		}
-		words[i] = w
-	}
+	blk := make([]byte, 1024)
+	rnd.Read(blk)
 	for sb.Len() < 100<<10 {
-		sb.Write(words[rnd.Intn(len(words))])
-		sb.WriteByte(' ')
+		for k := 0; k < 4; k++ {
+			blk[rnd.Intn(len(blk))] = byte(rnd.Intn(256))
+		}
+		sb.Write(blk)
 	}
 	src := sb.Bytes()
 	var summary []map[string]any
@@ -1054,6 +1157,10 @@ func TestC22(t *testing.T) {
 	r.Assume("Accept-Encoding model written from RFC 9110 12.5.3; lists naming the chosen coding both with q>0 and q=0 are ambiguous and not judged (skipped_ambiguous_accept_encoding); an identity response is never judged against identity;q=0")
 	r.Assume("Write*Level to a plain io.Writer that returns a non-nil error under overload told its caller: counted as saturation_explicit_errors, not judged; a nil error with undecodable output is judged")
 	r.Assume("the stackless queue capacity is GOMAXPROCS*2048 (stackless/func.go); the saturation run offers more simultaneous calls than that, it cannot observe from outside whether the queue-full branch was taken on a repaired tree")
+	// The codec libraries allocate MiB-sized encoder states that fasthttp keeps in sync.Pools; with the
+	// default GC pacing the monitor's own garbage empties those pools every few milliseconds and the run
+	// is dominated by page faults. Pacing only; no effect on what is checked.
+	defer debug.SetGCPercent(debug.SetGCPercent(400))
 	zstd0Safe := probeZstdLevel0(r)
 	r.Set("zstd_level0_safe_in_process", zstd0Safe)
 	phases := map[string]any{}
